@@ -176,6 +176,20 @@ fn gen_world(t: &mut Tape) -> WorldSpec {
             stdin.extend_from_slice(format!("bulk line number {} of the large input\n", i).as_bytes());
         }
     }
+    // occasionally a program file larger than any stdio or pipe buffer
+    if t.chance(1, 40) {
+        source_kind = "corpus";
+        loop_free = true;
+        let n = 3000 + t.draw(3000) as usize;
+        let mut big = String::with_capacity(n * 24);
+        for i in 0..n {
+            big.push_str(&format!("Say \"line {} of a big file\"\n", i));
+        }
+        if t.chance(1, 2) {
+            big.push_str("Build Missing Thing up\n"); // runtime error at the very end
+        }
+        source = big.into_bytes();
+    }
     // occasionally a large stdin (exceeds the pipe buffer)
     if t.chance(1, 25) {
         let n = 3000 + t.draw(3000) as usize;
